@@ -261,6 +261,15 @@ func jumpTarget(i instruction, w expr.Width) expr.Expr {
 	return exprtools.BitAnd(sum, expr.NewConstInt(int8(-2), w), w)
 }
 
+// mulhsu returns upper w bytes of 2*w bytes wide product of signed r1 and
+// unsigned r2.
+func mulhsu(r1, r2 expr.Expr, w expr.Width) expr.Expr {
+	r1Ext := exprtools.SignExtend(r1, expr.ConstFromUint(w.Bits()-1), 2*w)
+	mul := expr.NewBinary(expr.Mul, r1Ext, r2, 2*w)
+	shifted := expr.NewBinary(expr.Rsh, mul, expr.ConstFromUint(w.Bits()), 2*w)
+	return exprtools.NewWidthGadget(shifted, w)
+}
+
 func sext32To64(e expr.Expr) expr.Expr { return sext(e, 31, expr.Width64) }
 
 func memLoad(addr expr.Expr, w expr.Width) expr.Expr {
